@@ -137,6 +137,22 @@ class C02(DocProp):
                 # only quote characters differ, and without the option the document is a fixed point:
                 # the single-pass quote regex converts some quotations only once others have been converted
                 return "C02/nonidempotent/caused-by/smartquotes-needs-second-pass"
+        # several listed mechanisms in one document: cumulative normalisation (ellipsis conversion, quote
+        # conversion) must make the two passes equal and each normalisation used must be a listed mechanism
+        if not o.get("plaintext"):
+            strip = lambda t: re.sub(r"\s+", "", re.sub(r"(?m)^[ >]+", "", t))  # noqa: E731
+            ell = lambda t: t.replace(" …", "…").replace("… ", "…").replace("…", "...").replace(" ...", "...").replace("... ", "...")  # noqa: E731
+            unq2 = lambda t: t.translate({0x201c: '"', 0x201d: '"', 0x2018: "'", 0x2019: "'"})  # noqa: E731
+            a, b = o1, o2
+            used = []
+            if o.get("ellipses") and strip(ell(a)) != strip(a) or o.get("ellipses") and strip(ell(b)) != strip(b):
+                a, b = ell(a), ell(b)
+                used.append("C02/nonidempotent/caused-by/ellipsis-at-line-start")
+            if strip(a) != strip(b) and o.get("smartquotes"):
+                a, b = unq2(a), unq2(b)
+                used.append("C02/nonidempotent/caused-by/smartquotes-needs-second-pass")
+            if used and strip(a) == strip(b):
+                return used[0]
         if tag_boundaries(text) != tag_boundaries(o1):
             return "C02/nonidempotent/caused-by/tag-newline-created-by-pass1"
         kind = line_kind(d[1] or d[2] or "")
